@@ -27,6 +27,22 @@ Proof.
   unfold active_trail_nodes_obs. rewrite filter_In, negb_true_iff, memn_false. tauto.
 Qed.
 
+(* get_independencies: the asserted set for (start, observed) *)
+Lemma dsep_vars_spec g lat incl start observed v :
+  wf_graph g -> acyclic g -> In start (nodes g) -> ~ In start observed ->
+  (In v (dsep_vars g lat incl start observed) <->
+   In v (nodes g) /\ v <> start /\ (incl = true \/ ~ In v lat) /\ ~ In v observed /\
+   ~ dconnected g observed start v).
+Proof.
+  intros Hw Ha Hs Hz. unfold dsep_vars, indep_rest.
+  rewrite !filter_In, !andb_true_iff, orb_true_iff, !negb_true_iff, Nat.eqb_neq, !memn_false.
+  assert (Hact : In v (active_trail_nodes g start observed) <-> ~ In v observed /\ dconnected g observed start v)
+    by (apply reach_iff_active_trail; assumption).
+  destruct incl.
+  - rewrite Hact. intuition (try discriminate; auto).
+  - rewrite include_latents, Hact. intuition (try discriminate; auto).
+Qed.
+
 (* ------------------------------------------------------------------ induced / ancestral graph *)
 Definition up_closed (g : digraph) (keep : list node) : Prop :=
   forall u v, In (u, v) (edges g) -> In v keep -> In u keep.
